@@ -16,7 +16,9 @@ pub async fn handle(
     system: &SharedSystem,
 ) -> Result<(), IggyError> {
     debug!("session: {session}, command: {command}");
-    let system = system.read().await;
+    // The exclusive lock: with the shared one this command could be journalled before the (still unjournalled) creation
+    // of the entity it purges, which the replay of the state cannot apply.
+    let system = system.write().await;
     let stream_id = command.stream_id.clone();
 
     system
